@@ -20,6 +20,7 @@ mod c18;
 mod c08;
 mod c14;
 mod c13;
+mod c06;
 
 use ctx::{Ctx, Tier};
 
@@ -91,6 +92,8 @@ fn main() {
         "C17" => c17::run(&mut ctx),
         "C19" => c19::run(&mut ctx),
         "C13" => c13::run(&mut ctx),
+        "C06" => c06::run(&mut ctx, c06::Profile::C06),
+        "C12" => c06::run(&mut ctx, c06::Profile::C12),
         _ => {
             eprintln!("unknown property {}", prop);
             std::process::exit(2);
